@@ -37,6 +37,10 @@ SEEDS = [
     ("{a: 1.5}", [("KEY", "a")], 100.0), ("{a: &A1 true, b: *A1}", [("KEY", "a")], "zz"),
     ("{a: [&A x, y], b: [*A, x]}", [("KEY", "a"), ("INDEX", 0)], 7),
     ("[{a: &A2 'true'}, [{a: ab, b: *A2}]]", [("SEARCH", True, "=~", "b", "1"), ("KEY", "a")], 100.0),
+    ("{l: [a, b, c, d, e]}", [("KEY", "l"), ("SLICE", 1, 3)], "Z"),
+    ("{d: &D {r: 2.5, n: x}, s: {<<: *D, p: 8080}}", [("KEY", "d"), ("KEY", "r")], 0.75),
+    ("{d: &D {r: 'q', n: x}, s: {<<: *D, p: 8080}, t: [{<<: *D}]}", [("KEY", "d"), ("KEY", "r")], "zz"),
+    ("{d: &D {r: 2.5, n: x}, s: {<<: *D, p: 8080}}", [("KEY", "s"), ("KEY", "p")], 1),
 ]
 
 
@@ -44,7 +48,7 @@ def path_to_random_scalar(rng, data):
     segs, node = [], data
     for _ in range(8):
         if isinstance(node, dict) and len(node):
-            k = rng.choice(list(node.keys()))
+            k = rng.choice([kk for kk, _v in yp.own_items(node)] or list(node.keys()))
             if not isinstance(k, str) or not str(k).replace("_", "").isalnum() or str(k).lstrip("-").isdigit():
                 return None
             segs.append(("KEY", str(k)))
@@ -78,8 +82,6 @@ def run_history(ctx, rng, text, data, nsteps):
                 segs = path_to_random_scalar(rng, data) if rng.random() < 0.5 else None
                 if segs is None:
                     segs = gp.PathGen(rng, vocab, hslice=False).path()
-                    if any(s[0] in ("SLICE", "HSLICE") for s in segs):
-                        continue
                 if ES.step_set(ctx, data, text, segs, value, "set", hist):
                     hist.append(["set", gp.render(segs, "."), repr(value)])
                     done = True
@@ -91,8 +93,6 @@ def run_history(ctx, rng, text, data, nsteps):
         else:
             for _ in range(4):
                 segs = gp.PathGen(rng, vocab, hslice=False).path()
-                if any(s[0] in ("SLICE", "HSLICE") for s in segs):
-                    continue
                 if ES.step_delete(ctx, data, text, segs, "delete", hist):
                     hist.append(["delete", gp.render(segs, ".")])
                     done = True
@@ -117,10 +117,12 @@ def run_shard(ctx):
     want = SIZES[ctx.tier] // ctx.nshards
     n = 0
     while ctx.counters.get("set_steps", 0) + ctx.counters.get("create_steps", 0) + ctx.counters.get("delete_steps", 0) < want:
-        if rng.random() < 0.1:
+        x = rng.random()
+        if x < 0.1:
             text = rng.choice(gd.HOSTILE)
-            if "<<" in text:
-                continue
+        elif x < 0.25:
+            text = gd.gen_merge_doc(rng)          # `<<` merge keys: inherited keys are not the inheritor's own
+            ctx.count("docs_with_merge_keys")
         else:
             text, _ = gd.gen_doc(rng, rng.choice(["N", "N", "A", "A", "U"]))
         try:
@@ -129,6 +131,8 @@ def run_shard(ctx):
             continue
         if not isinstance(data, (dict, list)) or yp.is_set(data):
             continue
+        if "<<" in text:
+            yp.to_block(data)
         if not ES.roundtrips(data):
             ctx.count("doc_does_not_roundtrip_unedited_skipped")
             continue
